@@ -126,7 +126,22 @@ def build_entry(I, con: Contract, node, case_types):
 
 def run_path(con: Contract, case, prefix, worklist, report: FunctionReport, plant_canary=False, setup_hook=None):
     label, case_types = case if case is not None else (None, None)
-    node, modname, h = source.find_function(con.qualname)
+    try:
+        node, modname, h = source.find_function(con.qualname)
+    except KeyError as e:
+        why = getattr(con, "must_exist", None)
+        if why:
+            # the property's mechanism lives in this very function (by this name): its absence is a failed
+            # structural obligation, not an engine limit
+            report.record(f"{con.qualname}::exists", "refuted", {"backend": "source"})
+            report.refutations.append({"obligation": f"{con.qualname}::exists", "case": label, "inputs": {},
+                                       "decisions": [], "goal": f"function not found in the source: {why}",
+                                       "model": "", "awaits": []})
+            report.paths += 1
+            return
+        raise Unsupported(f"function under contract not found in the source: {e}")
+    if getattr(con, "must_exist", None):
+        report.record(f"{con.qualname}::exists", "proved", {"backend": "source"})
     report.source_hash = h
     _check_decorators(con, node)
     ctx = Ctx(prefix, worklist)
@@ -155,6 +170,8 @@ def run_path(con: Contract, case, prefix, worklist, report: FunctionReport, plan
         from . import asyncrule, looprule
 
         I.self_spec, I.self_obj = con.self_spec, self_obj
+        I.super_async = getattr(con, "super_async", ())
+        I.super_raises = getattr(con, "super_raises", ())
         asyncrule.install(I, con, self_obj, bindings)
         looprule.install(I, con, node, bindings)
         if con.modifies_ is not None and self_obj is not None:
@@ -285,10 +302,13 @@ def check_exit(I, con, bindings, old_view, result, raised, exit_kind, self_obj, 
         matched = [r for r in con.raises_ if issubclass(ec, r.exc_cls)]
         if not matched:
             check(f"exc.undeclared:{ec.__name__}", False)
+        else:
+            check("exc.only_declared", True)
         for r in matched:
             if r.when is not None:
                 check(f"raises.{r.cid}.sound", eval_clause(I, r.when, b, old_view=old_view, pre_state=True))
     else:
+        check("exc.only_declared", True)
         for r in con.raises_:
             if r.when is not None:
                 f = eval_clause(I, r.when, b, old_view=old_view, pre_state=True)
